@@ -88,7 +88,15 @@ func specialNumbers() []cty.Value {
 		// whole numbers beyond uint64 at several precisions (2^70, 1e25)
 		cty.MustParseNumberVal("1180591620717411303424"), cty.NumberFloatVal(1180591620717411303424), cty.NumberIntVal(1 << 35).Multiply(cty.NumberIntVal(1 << 35)),
 		cty.MustParseNumberVal("1e25"), cty.NumberFloatVal(1e25),
+		// 53 bits of precision, binary exponent outside the float64 range (arithmetic on float64-made numbers): a
+		// comparison or hash that goes through float64 sees +Inf / 0 for all of them
+		beyondF64(1, 2000), beyondF64(3, 2000), beyondF64(1, 1024), cty.NumberFloatVal(math.MaxFloat64).Add(cty.NumberFloatVal(math.MaxFloat64)),
+		beyondF64(1, -2000), beyondF64(1, -1077), beyondF64(-1, -2000), cty.NumberFloatVal(math.SmallestNonzeroFloat64).Divide(cty.NumberFloatVal(2)),
 	}
+}
+
+func beyondF64(m float64, exp int) cty.Value {
+	return cty.NumberVal(new(big.Float).SetPrec(53).SetMantExp(big.NewFloat(m), exp))
 }
 
 func oddPrec(d string, prec uint) cty.Value {
@@ -342,7 +350,11 @@ func runLaws(c *core.Ctx) {
 	size := c.N(64, 140)
 	var caseIdx int64
 	for pi, p := range pools {
-		pool := buildPool(c.GlobalRNG("pool:"+p.name), p, size)
+		psize := size
+		if p.ty == cty.Number && psize < 96 {
+			psize = 96 // the special numbers alone are about 75
+		}
+		pool := buildPool(c.GlobalRNG("pool:"+p.name), p, psize)
 		// the extra, non-wholly-known entries used for the RawEquals laws only
 		extra := []cty.Value{cty.UnknownVal(p.ty), cty.UnknownVal(p.ty).RefineNotNull(), pool[len(pool)-1].Mark(gen.Marks[0]), cty.DynamicVal}
 		all := append(append([]cty.Value(nil), pool...), extra...)
